@@ -116,6 +116,22 @@ SCRIPTS = [
     ("quantifier scope ends", "(assert (and (forall ((x Int)) (< x y)) (< x z)))"),
 ]
 
+def _push_pop_scripts():
+    """(assert A)(push P1)(assert B)(push P2)(assert C)(pop Q)(assert D) for every numeral spelling incl. 0 and the omitted one"""
+    out = []
+    for p1 in ("", "0", "1", "2"):
+        for p2 in ("", "0", "1", "2"):
+            depth = (1 if p1 == "" else int(p1)) + (1 if p2 == "" else int(p2))
+            for q in ("", "0", "1", "2", "3"):
+                if (1 if q == "" else int(q)) > depth:
+                    continue
+                body = "(assert (< x 1))(push %s)(assert (< y 2))(push %s)(assert (< z 3))(pop %s)(assert p)" % (p1, p2, q)
+                out.append(("push%s push%s pop%s" % (p1 or "_", p2 or "_", q or "_"), body.replace("push )", "push)").replace("pop )", "pop)")))
+    return out
+
+
+SCRIPTS += _push_pop_scripts()
+
 # malformed / non-standard text: must be rejected with an error, never silently read as something else
 MALFORMED = [
     ("undeclared symbol", "(assert (< undeclared1 x))"),
